@@ -1,4 +1,4 @@
-CONSTANTS AllowWrongQ = FALSE AllowDupTrunc = FALSE AllowSidCollision = FALSE
+CONSTANTS AllowWrongQ = FALSE AllowDupTrunc = FALSE AllowSidCollision = FALSE AllowCleanupRace = FALSE
 SPECIFICATION Spec
 INVARIANT TraceChk
 POSTCONDITION TracePost
